@@ -3,5 +3,6 @@ import ShootVerif.Drive.Ctor
 import ShootVerif.Drive.Opt
 import ShootVerif.Drive.GetSet
 import ShootVerif.Drive.Json
+import ShootVerif.Drive.C01
 open ShootVerif.Drive
-def main : IO Unit := runDriver [("ctor", ctorCase), ("opt", optCase), ("getset", getsetCase), ("json", jsonCase)]
+def main : IO Unit := runDriver [("ctor", ctorCase), ("opt", optCase), ("getset", getsetCase), ("json", jsonCase), ("c01new", c01newCase)]
